@@ -745,6 +745,10 @@ func c12Resume(t *testing.T, rep *vfReport, r *vfRng, root string, segOps, segIm
 		arg := "x"
 		if err != nil {
 			tok = "err"
+			if !strings.Contains(err.Error(), "CRC32") {
+				arg = "sqlite-refuses" // the checkpoint / integrity check of the plan refused the files
+				rep.Count("resume-refused-by-sqlite")
+			}
 		} else {
 			s1.fatalFn = nil
 			if metas, _ := s1.List(); len(metas) > 0 {
